@@ -6,6 +6,7 @@ package main
 // stderr and exit status; natively the same scenarios are replayed through the built binary.
 
 import (
+	"fmt"
 	"strings"
 
 	"golang.org/x/text/unicode/norm"
@@ -281,6 +282,133 @@ func VH_replRepeat(n int) {
 	lines = append(lines, last)
 	wantOut += fresh
 	wantErr += freshErr
+	verifSetArgs("borno")
+	verifSetStdinText(lines...)
+	verifRunMain()
+	verifAssert("session-exits-0", verifProcExit() == 0)
+	verifAssert("every-line-responds-as-in-a-fresh-session", verifProcStdout() == wantOut)
+	verifAssert("every-line-diagnosed-as-in-a-fresh-session", verifProcStderr() == wantErr)
+}
+
+// classifyPool: one-line statements; kind 0 = runs cleanly (prints out), 1 = lexical or syntax
+// error, 2 = runtime error.
+var classifyPool = []struct {
+	text string
+	kind int
+	out  string
+}{
+	{"\u09a6\u09c7\u0996\u09be\u0993 1;", 0, "1\n"},
+	{"\u09a6\u09c7\u0996\u09be\u0993 \"s\";", 0, "s\n"},
+	{"{ \u09a7\u09b0\u09bf v = 2; }", 0, ""},
+	{"\u09a6\u09c7\u0996\u09be\u0993 @;", 1, ""},
+	{"\u09a6\u09c7\u0996\u09be\u0993 " + strings.Repeat("9", 400) + ";", 1, ""}, // a literal no double can hold
+	{"\u09a6\u09c7\u0996\u09be\u0993 2" + strings.Repeat("\u09e6", 308) + ";", 1, ""},
+	{"\u09a6\u09c7\u0996\u09be\u0993 ;", 1, ""},
+	{"\u09a6\u09c7\u0996\u09be\u0993 \"open;", 1, ""},
+	{"/* open", 1, ""},
+	{"\u09a6\u09c7\u0996\u09be\u0993 x;", 2, ""},
+	{"\u09a6\u09c7\u0996\u09be\u0993 1 / 0;", 2, ""},
+	{"\u09a6\u09c7\u0996\u09be\u0993 -\"50%\";", 2, ""},
+}
+
+// VH_classify (C19): a script of k lines drawn from the pool. Status 65 and nothing executed iff
+// some line has a lexical or syntax error (wherever it stands); otherwise status 70 and the output
+// up to the fault iff a line fails at run time; otherwise status 0, empty stderr, all output.
+func VH_classify(k int) {
+	src := ""
+	front, rt := false, -1
+	out := ""
+	for i := 0; i < k; i++ {
+		p := classifyPool[verifChoice(len(classifyPool))]
+		src += p.text + "\n"
+		switch p.kind {
+		case 1:
+			front = true
+		case 2:
+			if rt < 0 {
+				rt = i
+			}
+		default:
+			if rt < 0 {
+				out += p.out
+			}
+		}
+	}
+	verifSetArgs("borno", "a.bn")
+	verifSetFile(true, src)
+	verifSetStdin(0, true)
+	verifRunMain()
+	gotOut, gotErr, status := verifProcStdout(), verifProcStderr(), verifProcExit()
+	switch {
+	case front:
+		verifAssert("front-end-error-exit-65", status == 65)
+		verifAssert("front-end-error-diagnosed-on-stderr", strings.Contains(gotErr, "[line "))
+		verifAssert("rejected-text-is-not-executed", gotOut == "")
+	case rt >= 0:
+		verifAssert("runtime-error-exit-70", status == 70)
+		verifAssert("runtime-error-stdout-up-to-the-fault", gotOut == out)
+		verifAssert("runtime-error-names-its-line", strings.Contains(gotErr, fmt.Sprintf("[line %d]", rt+1)))
+	default:
+		verifAssert("clean-run-exit-0", status == 0)
+		verifAssert("clean-run-empty-stderr", gotErr == "")
+		verifAssert("clean-run-stdout", gotOut == out)
+	}
+}
+
+// originTexts: texts NFC would rewrite (cf. nfcTexts of the interpreter harness) and plain ones.
+var originTexts = []string{"cafe\u0301", "k\u09df", "\u09ac\u09dc", "\u0995\u09c7\u09be", "abc", "\u0995\u09cb", "caf\u00e9"}
+
+// VH_inputOrigin (C16): the same text arriving from ইনপুট and written as a literal is the same
+// string: equal under ==, the same under + and as a property key.
+func VH_inputOrigin() {
+	t := originTexts[verifChoice(len(originTexts))]
+	src := "\u09a7\u09b0\u09bf a = \u0987\u09a8\u09aa\u09c1\u099f();\n" +
+		"\u09a6\u09c7\u0996\u09be\u0993 a == \"" + t + "\";\n" +
+		"\u09a6\u09c7\u0996\u09be\u0993 (a + \"|\") == (\"" + t + "\" + \"|\");\n" +
+		"\u09a7\u09b0\u09bf o = {" + t + ": 1};\n" +
+		"\u09a6\u09c7\u0996\u09be\u0993 \u0985\u09ac\u09cd\u099c\u09c7\u0995\u09cd\u099f_\u0995\u09bf(o)[0] == a;\n" +
+		"\u09a6\u09c7\u0996\u09be\u0993 \u0985\u09ac\u09cd\u099c\u09c7\u0995\u09cd\u099f_\u0995\u09bf(o)[0] == \"" + t + "\";\n"
+	verifSetArgs("borno", "a.bn")
+	verifSetFile(true, src)
+	verifSetStdinText(t)
+	verifRunMain()
+	verifAssert("input-and-literal-program-runs", verifProcExit() == 0 && verifProcStderr() == "")
+	verifAssert("same-text-same-string-whatever-its-origin", verifProcStdout() == "true\ntrue\ntrue\ntrue\n")
+}
+
+// VH_replLong (C20): a session whose first line is nbytes bytes long (a failing statement
+// followed by a comment that pads the line and ends in text that would print if it were taken
+// for a line of its own), then two lines from the pool. Every line gets exactly one response.
+func VH_replLong(nbytes int) {
+	head := "x; // "
+	tail := " \u09a6\u09c7\u0996\u09be\u0993 99;"
+	pad := nbytes - len(head) - len(tail)
+	if pad < 0 {
+		verifAssume(false)
+	}
+	long := head + strings.Repeat("-", pad) + tail
+	// followers: a bare expression (echo), a lexical error, a runtime error
+	follow := []int{0, 2, 5}
+	lines := []string{long, replPool[follow[verifChoice(3)]], replPool[follow[verifChoice(3)]]}
+	wantOut, wantErr := "", ""
+	for i := 0; i < len(lines); i++ {
+		verifSetArgs("borno")
+		verifSetStdinText(lines[i])
+		verifRunMain()
+		o, e := verifProcStdout(), verifProcStderr()
+		verifAssert("single-line-session-exits-0", verifProcExit() == 0)
+		verifAssert("single-line-session-shape", strings.HasPrefix(o, ">> ") && strings.HasSuffix(o, ">> ") && len(o) >= 6)
+		if !(strings.HasPrefix(o, ">> ") && strings.HasSuffix(o, ">> ") && len(o) >= 6) {
+			return
+		}
+		if i == 0 {
+			// the long line is one failing statement and a comment: one diagnostic, nothing printed
+			verifAssert("long-line-gets-one-response", o == ">> >> " && e != "")
+		}
+		wantOut += o[:len(o)-3]
+		wantErr += e
+	}
+	wantOut += ">> "
 	verifSetArgs("borno")
 	verifSetStdinText(lines...)
 	verifRunMain()
